@@ -185,7 +185,7 @@ Qed.
 
 Lemma code_nodef : forall s, (forall c z, s <> SnClass c z) -> nodef (code_of s) = true.
 Proof.
-  intros s H; destruct s as [g z|g|f g|f|cl z|cl|pre|w d|  |  |  |  |k|  |  |  |m|m| ]; try reflexivity.
+  intros s H; destruct s as [g z|g|f g|f|cl z|cl|pre|w d|  |  |  |  |k|  |  |  |  |  |m|m| ]; try reflexivity.
   - exfalso; eapply H; reflexivity.
   - destruct d as [[g z]|]; destruct w as [|[]| | | | | | | | | | | | | | ]; reflexivity.
   - destruct k; reflexivity.
@@ -201,11 +201,11 @@ Theorem snippet_leq : forall c c' s, leq c c' ->
 Proof.
   intros c c' s H. apply leq_inv in H.
   destruct H as (he & he' & fibs & fibs' & cd & cd' & mods & ch & rg & rg' & gl & -> & ->).
-  destruct s as [g z|g|f g|f|cl z|cl|pre|w d|  |  |  |  |k|  |  |  |m|m| ].
+  destruct s as [g z|g|f g|f|cl z|cl|pre|w d|  |  |  |  |k|  |  |  |  |  |m|m| ].
   5: { (* SnClass: DeclareClass sets the pending definition before DefineClass takes it *)
        cbn. repeat split. }
   6: { (* SnSyntax *) cbn. split; [reflexivity | split; [repeat split | intros Hf; discriminate Hf]]. }
-  17: { (* SnReset *) cbn. unfold m_reset, m_reset_stack; cbn.
+  19: { (* SnReset *) cbn. unfold m_reset, m_reset_stack; cbn.
         destruct fibs, fibs'; cbn; (split; [reflexivity | split; [repeat split | intros Hf; discriminate Hf]]). }
   all: match goal with |- context [m_snippet _ ?s] =>
          assert (Hn : nodef (code_of s) = true) by (apply code_nodef; intros; discriminate);
@@ -223,8 +223,10 @@ Proof.
        destruct (ceq_finish _ _ Hc) as (F1 & F2 & F3 & F4 & F5 & F6 & F7);
        destruct Hc as [Hc1 [Hc2 _]];
        destruct (ms_st ra); cbn [fst snd];
-       (split; [reflexivity | split; [first [exact F1 | exact F2 | exact F3]
-                                     | intros _; split; first [exact F4 | exact F5 | exact F6 | exact F7 | exact Hc1 | exact Hc2]]]).
+       [ split; [reflexivity | split; [exact F1 | intros _; split; [exact F4 | exact F5]]]
+       | split; [reflexivity | split; [exact F2 | intros _; split; [exact F6 | exact F7]]]
+       | split; [reflexivity | split; [exact F3 | intros _; split; [exact Hc1 | exact Hc2]]]
+       | split; [reflexivity | split; [exact F3 | intros _; split; [exact Hc1 | exact Hc2]]] ].
 Qed.
 
 Lemma history_leq : forall h c c', leq c c' -> map fst (m_history c h) = map fst (m_history c' h).
@@ -296,7 +298,7 @@ Proof. intros c; unfold clean, m_reset, m_reset_stack; destruct c as [? [|f r] ?
 Theorem snippet_leaves_clean : forall c s, clean c -> settled (snd (m_snippet c s)) -> clean (fst (m_snippet c s)).
 Proof.
   intros c s Hc Hs.
-  destruct s; try (cbn; apply clean_reset);
+  destruct s; try (cbn [m_snippet fst]; apply clean_reset);
     unfold m_snippet in *; cbv beta iota delta [compiles] in *;
     try match goal with |- context [ms_st ?r] => destruct (ms_st r) eqn:E end; cbn [fst snd] in *;
     try apply clean_run_ok; try apply clean_runtime_error; try (exfalso; exact Hs).
@@ -333,6 +335,12 @@ Example pending_class_def_survives :
             (exists c0, map snd (eval_mech [SnThrow WClassDef None; SnTryFin]) = [c0; c] /\ c_classdef c = true).
 Proof. eexists; right; eexists; vm_compute; repeat split. Qed.
 
+(* the flag is also left set by runs that end SUCCESSFULLY (a finally block entered by a throw that returns, or that parks
+   its fiber for good): only the clearing at the START of execute protects the next run - see late_flag_reset_refuted *)
+Example flag_set_after_successful_run :
+  map (fun oc => (o_res (fst oc), c_he (snd oc))) (eval_mech [SnSwallowOk; SnParkFin; SnTryFin]) =
+  [(OOk, true); (OOk, true); (OOk, false)].
+Proof. vm_compute; reflexivity. Qed.
 
 Print Assumptions stale_state_harmless.
 Print Assumptions execute_starts_fresh.
